@@ -51,7 +51,7 @@ PROPS = {
                               ('abandon', {'c', 'p'}), ('around', {'c', 'p'})], k1=[]),
     'C17': dict(k2=[], k1=['struct'], k3=['nostd']),
     'C18': dict(k1s=True, k2=[('names', ALL)], k1=[], k3=['rename']),
-    'C19': dict(k1s=True, k2=[('abandon', ALL), ('refuse', ALL)], k1=[]),
+    'C19': dict(k1s=True, k2=[('abandon', ALL), ('refuse', ALL), ('walk', {'res', 'holder'})], k1=[]),
 }
 
 
